@@ -13,7 +13,7 @@ XPath 1.0 implementation - part 3 (functions)
 import math
 import decimal
 from collections.abc import Iterator
-from typing import Any, cast, Optional
+from typing import Any, Optional
 
 import elementpath.aliases as ta
 
@@ -521,17 +521,16 @@ def evaluate__round(self: XPathFunction, context: ta.ContextType = None) -> ta.O
         if not isinstance(arg, (int, float, decimal.Decimal)):
             raise TypeError(f"must be real number, not {type(arg).__name__!r}")
 
+        # Decimal.to_integral_value() is not limited by the precision of the context
         number = decimal.Decimal(arg)
         if number > 0:
-            return type(arg)(number.quantize(decimal.Decimal('1'), rounding='ROUND_HALF_UP'))
+            return type(arg)(number.to_integral_value(rounding='ROUND_HALF_UP'))
         else:
-            return type(arg)(number.quantize(decimal.Decimal('1'), rounding='ROUND_HALF_DOWN'))
+            return type(arg)(number.to_integral_value(rounding='ROUND_HALF_DOWN'))
     except TypeError as err:
         if isinstance(context, XPathSchemaContext):
             return []
         raise self.error('FORG0006', err) from None
-    except decimal.InvalidOperation:
-        return cast(int, round(arg))
     except decimal.DecimalException as err:
         if isinstance(context, XPathSchemaContext):
             return []
